@@ -14,9 +14,9 @@ import (
 	"github.com/elnosh/gonuts/cashu/nuts/nut09"
 	"github.com/elnosh/gonuts/cashu/nuts/nut13"
 	"github.com/elnosh/gonuts/crypto"
+	v "github.com/elnosh/gonuts/verifrt"
 	"github.com/elnosh/gonuts/wallet/storage"
 	"github.com/tyler-smith/go-bip39"
-	v "github.com/elnosh/gonuts/verifrt"
 )
 
 // ---- C17 bookkeeping: value held by the wallet and value consumed / issued by the mint, in unbounded integers
@@ -295,6 +295,7 @@ func VHarnessWalletMelt() {
 const vhMnemonic = "abandon abandon abandon abandon abandon abandon abandon abandon abandon abandon abandon about"
 
 func VHarnessRestore() {
+	vhDerivedIds = true
 	env := vhNewWallet(0, 0, 0)
 	defer env.close()
 	seed := bip39.NewSeed(vhMnemonic, "")
@@ -342,4 +343,3 @@ func VHarnessRestore() {
 	v.Reach("restored")
 	_ = first
 }
-
